@@ -71,19 +71,19 @@ def run(ctx):
     graphs = []
     depth3 = [0]
 
-    class Run(storelib.StoreRun):
-        pass
-
     try:
         for name, over, sample in CFGS[ctx.tier]:
             run_ = storelib.StoreRun(ctx, name, over, sample=sample, probes=False)
-            orig = run_.run
-
             def on_violation(r_, req, r):
                 storelib.default_violation(ctx)(r_, req, r)
             # collect graphs through a wrapper around on_result: StoreRun passes results to cov only, so ask for dumps
             run_.dump = True
             st = run_with_dump(run_, pool, on_violation, cov, graphs)
+        # production capacities 9/290: enough rows for an internal node to split (a third level), graphs every 40 statements
+        seeds = [ctx.seed * 1000 + i for i in range(2 if ctx.quick() else 12)]
+        agg = storelib.random_runs(ctx, pool, cov, [dict(seed=sd, n=(300 if ctx.quick() else 900), caps=([] if i % 3 != 1 else [5, 4]), cache=0, pcrash=(0.03 if i % 2 else 0), pflush=0.05,
+                                                         wal=False, maxrows=30, bias="grow", graphevery=(100 if ctx.quick() else 40)) for i, sd in enumerate(seeds)])
+        cov["random_max_levels"] = agg["max_tree_levels"]
     finally:
         pool.close()
     if not graphs:
